@@ -315,7 +315,7 @@ pub fn main(args: &[String]) {
 pub fn history_inputs(count: usize) -> Vec<String> {
     // shortest representative of each of the most frequent end configurations of S1 u S2 (N = 3)
     let mut seen: HashMap<u64, (u64, String)> = HashMap::new();
-    for base in [spaces::S1, spaces::S2, spaces::S4] {
+    for base in [spaces::S1, spaces::S2, spaces::S4, spaces::S5_CORE, spaces::S7] {
         let space = Space::new("h", base, 3);
         for n in 0..=3usize {
             for c in 0..chunks_of(&space, n) {
@@ -343,6 +343,19 @@ pub fn history_inputs(count: usize) -> Vec<String> {
         "x=0ffx; y=1e5; z='41'x;",
         "%put %sysfunc(f(1.5,2),best.);",
         "\u{feff}é='€';",
+        "* c;",
+        "*;",
+        "x",
+        "x y",
+        "&mv",
+        "proc print data=a",
+        "%macro m;",
+        "%do;",
+        "'unterminated",
+        "\"&v",
+        "/* open",
+        "%m(",
+        "datalines;",
     ] {
         out.push(s.to_string());
     }
